@@ -112,7 +112,9 @@ def classify(prop, mod, viol, findings):
     """Return the open finding entry this violation belongs to, or None."""
     key = viol.get("key")
     for f in findings:
-        if f.get("property") == prop and f.get("status") == "open" and f.get("key") == key:
+        if f.get("property") != prop or f.get("status") != "open":
+            continue
+        if f.get("key") == key or (f.get("key_prefix") and str(key).startswith(f["key_prefix"])):
             return f
     return None
 
@@ -205,14 +207,14 @@ def main(argv=None):
     for v in violations:
         f = classify(prop, mod, v, findings)
         if f is not None:
-            known.setdefault(f["key"], []).append(v)
+            known.setdefault(f.get("key") or f.get("key_prefix"), []).append(v)
         else:
             unlisted.setdefault(v.get("key", "unclassified"), []).append(v)
 
     rc = 0
     repdir = os.path.join(VERIF_ROOT, "replays", prop)
     for key, vs in sorted(known.items()):
-        f = [x for x in findings if x["key"] == key and x["property"] == prop][0]
+        f = [x for x in findings if (x.get("key") or x.get("key_prefix")) == key and x["property"] == prop][0]
         print("KNOWN-FINDING: property=%s %s: %s (%d witnesses this run)" % (prop, key, f["what"], len(vs)))
     for key, vs in sorted(unlisted.items()):
         os.makedirs(repdir, exist_ok=True)
